@@ -19,7 +19,7 @@ def setup(ctx, props, extra_translators=()):
     return bdir, problems.Algs(ctx.alg)
 
 
-def run_batch(ctx, bdir, A, plist, mons, name, replay=True, variant="hooks", env=None):
+def run_batch(ctx, bdir, A, plist, mons, name, replay=True, variant="hooks", env=None, blame_crash=True):
     """runs the problems, replays them through the wrapper model (correspondence), applies the monitors.
     returns list of (problem dict, Run, RunInfo or None)"""
     lines = [problems.to_line(p) for p in plist]
@@ -29,10 +29,15 @@ def run_batch(ctx, bdir, A, plist, mons, name, replay=True, variant="hooks", env
     for p, r in zip(plist, runs):
         ri = None
         st[r.status.split(" ")[0].split("=")[0]] += 1
-        if r.status != "ok":
+        if r.status != "ok" and not blame_crash:
+            # pair / equivalence properties: a crash or hang is not a statement about the compared behaviour (C03 and C10 own those)
+            st["not_blamed_here"] += 1
+        elif r.status != "ok":
             sig = {"alg": A.name(p["alg"]), "cause": "crash" if r.status.startswith("CRASH") else "no termination within the watchdog time"}
             if "inj" in p or "injc" in p:
                 sig["objective"] = "returned Inf/NaN at some evaluation"
+            if "pre" in p:
+                sig["preconditioner"] = True
             ctx.violation(sig, "%s: %s (%d callbacks recorded)" % (A.name(p["alg"]), r.status, len(r.calls)), {"stream": "run", "spec": r.spec})
         else:
             ri = monitors.RunInfo(r, A)
@@ -98,9 +103,12 @@ def compare_pairs(ctx, runs_a, runs_b, relate, name, sigbase):
     n = bad = 0
     for a, b in zip(runs_a, runs_b):
         n += 1
+        if a.status != "ok" and b.status != "ok":
+            continue                      # both crashed / hung alike: owned by C03 / C10
         if a.status != "ok" or b.status != "ok":
-            continue
-        d = relate(a, b)
+            d = "one run ended with %s, the other with %s" % (a.status, b.status)
+        else:
+            d = relate(a, b)
         if d:
             bad += 1
             from .swrap import kvs
